@@ -19,14 +19,24 @@ import traceback
 import numpy as np
 
 ID = "C04"
-RULE = ("histories: random (shape 1-3 D, threshold, rotation pool with repeats, float32 values drawn from a small pool so "
-        "ties are frequent, all-negative / all-below-threshold / +-inf variants), thread-safe and plain analyzers; "
-        "post-processing frames (roll + crop); tilings of 2-5 overlapping boxes merged in original, permuted and grouped "
-        "order and compared with one analyzer fed everything; 2 and 4 real processes submitting to one shared analyzer. "
+RULE = ("histories: random (shape 1-4 D incl. >10 000 voxels, threshold incl. 0 / -inf / +inf / a submitted value and spelled as float, "
+        "int, numpy scalar or left to the default, rotation pool with repeats and one-ulp neighbours, float32 values drawn from a small "
+        "pool so ties are frequent: all-negative / all-below-threshold / +-inf / neighbouring floats at 1e-30..1e30 / large mean / +-0), "
+        "submitted as float16/32/64 or int8..64 arrays in C / Fortran / strided / reversed / offset / axis-permuted / read-only / memmap "
+        "layout with rotation matrices in C / Fortran / strided / read-only layout; thread-safe and plain analyzers set up from a shape "
+        "(tuple / list / ndarray) or from prepared arrays, with / without shared_memory_handler, use_memmap, scan's extra keywords; "
+        "tuple(analyzer) also read after prefixes; 140-520 and 33 500 / 70 000 different rotations; "
+        "post-processing frames (roll + crop, shift as tuple / ndarray); tilings of 1-5 overlapping boxes (stores as tuples / lists in "
+        "several layouts, int16/32/64 offsets, analyzers fed one after the other or in turns, >255 rotations, memmap path end to end) merged "
+        "in original, permuted, reversed and grouped order, with None entries, and compared with one analyzer fed everything; 2, 3 and 4 "
+        "real processes submitting to one shared analyzer (even / (k,1,0) / one-each splits, thread_safe given or default, the parent "
+        "submitting before and after). "
         "distinct = distinct (kind, shape, threshold-rank, history signature) tuples; histories that never improve a voxel, "
         "single-voxel arrays and empty histories are run but not counted")
 ASSUMPTIONS = [
     "float scores are NaN-free float32 (the backend's score dtype); the model sees their ranks, which preserves > and =",
+    "values submitted as float64 / float16 / integer arrays are exactly representable in float32; no subnormal numbers (the "
+    "extension module is built with -ffast-math, which may flush them in this process); thresholds are float32-representable",
     "merge is called with the score_threshold the stores were built with (different thresholds are outside the property)",
     "a rotation is identified with the bytes of its matrix (as the code does): 0.0 and -0.0 entries are different rotations",
     "real multi-process runs can only show the interleavings the OS produces; the read->write window is widened from the "
@@ -48,7 +58,9 @@ def _hex(m):
 
 
 def _rot_pool(rng, nd, n):
-    """n distinct rotation matrices (as the code sees them: byte strings), incl. near-duplicates."""
+    """n distinct rotation matrices (as the code sees them: byte strings), incl. near-duplicates: the identity in
+    float64 / float32 / with negative zeros, and pairs that differ in one unit of the last place of one entry (the
+    first or the last one), which any shortened or rounded key would merge."""
     from scipy.spatial.transform import Rotation
     pool = []
     base = np.eye(nd)
@@ -58,16 +70,28 @@ def _rot_pool(rng, nd, n):
     pool.append(neg.astype(np.float64))
     pool.append(base.astype(np.float32))
     while len(pool) < n + 3:
+        if pool and len(pool) > 3 and rng.random() < 0.2:
+            m = np.array(pool[int(rng.integers(3, len(pool)))])      # neighbour of an earlier one: one entry moved by one ulp
+            pos = (0,) * 2 if rng.random() < 0.5 else (m.shape[0] - 1,) * 2
+            m[pos] = np.nextafter(m[pos], m.dtype.type(4.0))
+            if not any(x.dtype == m.dtype and x.tobytes() == m.tobytes() for x in pool):
+                pool.append(m)
+                continue
         if nd == 3:
             m = Rotation.random(random_state=int(rng.integers(1 << 30))).as_matrix()
         elif nd == 2:
             a = float(rng.uniform(0, 2 * np.pi))
             m = np.array([[np.cos(a), -np.sin(a)], [np.sin(a), np.cos(a)]])
-        else:
+        elif nd == 1:
             m = np.array([[float(rng.choice([1.0, -1.0])) * (1 + len(pool) * 1e-3)]])
+        else:
+            m = np.linalg.qr(rng.normal(size=(nd, nd)))[0]
         pool.append(m.astype(np.float32 if rng.random() < 0.5 else np.float64))
     idx = rng.permutation(len(pool))[:n]
     return [pool[i] for i in idx]
+
+
+_F32_MAX = float(np.finfo(np.float32).max)
 
 
 def _value_pool(rng, style):
@@ -81,37 +105,177 @@ def _value_pool(rng, style):
         base = rng.normal(size=40) * 10.0 ** rng.integers(-3, 4)
     elif style == "inf":
         base = np.concatenate([rng.normal(size=4), [np.inf, -np.inf]])
+    elif style == "ulp":
+        # neighbouring float32 numbers around a base of any magnitude / sign: a comparison with a tolerance,
+        # or one made in a narrower type, cannot tell them apart
+        b = np.float32(rng.choice([1.0, -1.0, 1000.0, -1000.0, 1e-9, 0.1, 16777216.0, 3e4, 1e-30, 1e30]))
+        vals = [b]
+        for _ in range(3):
+            vals.append(np.nextafter(vals[-1], np.float32(np.inf), dtype=np.float32))
+        lo = b
+        for _ in range(3):
+            lo = np.nextafter(lo, np.float32(-np.inf), dtype=np.float32)
+            vals.append(lo)
+        return _f32(vals)
+    elif style == "tiny":
+        base = rng.normal(size=6) * 10.0 ** float(rng.choice([-9, -20, -30]))     # normal float32 numbers only (no subnormals)
+    elif style == "huge":
+        base = np.concatenate([rng.normal(size=4) * 1e30, [_F32_MAX, -_F32_MAX]])
+    elif style == "offset":
+        # small differences on top of a large mean of either sign
+        base = float(rng.choice([1000.0, -1000.0, 65536.0])) + rng.integers(-4, 5, size=8) * 2.0 ** -6
+    elif style == "zeros":
+        base = np.array([0.0, -0.0, 1e-30, -1e-30, 1.0, -1.0])
     else:
         base = rng.normal(size=6)
     return _f32(base)
 
 
-def gen_history(rng, wide=False, nd=None, shape=None, min_len=0, p_ts=0.3):
-    nd = nd or int(rng.integers(1, 4))
+# memory layouts an array can reach the API in (same shape, dtype and elements; other strides / flags / backing)
+LAYOUTS = ["C", "F", "strided", "reversed", "offset", "readonly", "axes", "memmap"]
+
+
+def _junk(dt):
+    dt = np.dtype(dt)
+    return np.finfo(dt).max if dt.kind == "f" else np.iinfo(dt).max
+
+
+def _layout(a, kind):
+    """`a` element by element, laid out differently in memory; the surrounding buffer holds the largest number of
+    the dtype, so that anything reading the raw buffer instead of the array wins visibly."""
+    a = np.ascontiguousarray(a)
+    if kind == "F":
+        return np.asfortranarray(a)
+    if kind == "strided":
+        big = np.full(tuple(2 * s for s in a.shape), _junk(a.dtype), dtype=a.dtype)
+        v = big[tuple(slice(None, None, 2) for _ in a.shape)]
+        v[...] = a
+        return v
+    if kind == "reversed":
+        rev = (slice(None, None, -1),) * a.ndim
+        return a[rev].copy()[rev]
+    if kind == "offset":
+        big = np.full(tuple(s + 3 for s in a.shape), _junk(a.dtype), dtype=a.dtype)
+        v = big[tuple(slice(1, 1 + s) for s in a.shape)]
+        v[...] = a
+        return v
+    if kind == "readonly":
+        b = a.copy()
+        b.setflags(write=False)
+        return b
+    if kind == "axes" and a.ndim >= 2:
+        return np.moveaxis(np.ascontiguousarray(np.moveaxis(a, 0, -1)), -1, 0)     # first axis varies fastest
+    if kind == "memmap":
+        from pv import env as _env
+        _layout.n += 1
+        fn = os.path.join(_env.scratch(), "c04_in_%d_%d.bin" % (os.getpid(), _layout.n))
+        a.tofile(fn)
+        _merge_impl.tmpfiles.append(fn)
+        return np.memmap(fn, mode="r", dtype=a.dtype, shape=a.shape)
+    return a
+
+
+_layout.n = 0
+
+
+def _pick_layout(rng, p_plain=0.55):
+    return "C" if rng.random() < p_plain else str(rng.choice(LAYOUTS[1:], p=[0.22, 0.16, 0.14, 0.14, 0.14, 0.14, 0.06]))
+
+
+_THR_KINDS = ["zero", "below", "above", "inside", "member", "member", "zero", "ninf", "pinf"]
+_INT_SUB_DTYPES = ["float32", "float64", "float16", "int8", "int16", "int32", "int64"]
+_ROT_LAYOUTS = ["C", "C", "C", "F", "strided", "readonly", "offset"]
+
+
+def _pick_thr(rng, pool, kinds=_THR_KINDS):
+    tk = str(rng.choice(kinds))
+    fin = pool[np.isfinite(pool)]
+    thr = {"zero": 0.0, "below": float(fin.min()) - 1.0, "above": float(fin.max()) + 1.0,
+           "inside": float(np.median(fin)) + 1e-3, "member": float(rng.choice(fin)),
+           "ninf": -np.inf, "pinf": np.inf}[tk]
+    with np.errstate(over="ignore"):
+        thr = float(_f32(thr))
+    # how the caller spells the number: python float / int, numpy scalars, or not at all (the default, 0)
+    opts = ["float", "float", "f32", "f64"]
+    if np.isfinite(thr) and thr == int(thr) and abs(thr) < 2 ** 24:
+        opts += ["int", "int"]
+    if thr == 0.0:
+        opts += ["default"] * 4
+    return thr, tk, str(rng.choice(opts))
+
+
+def _thr_value(thr, thr_type):
+    return {"f32": np.float32, "f64": np.float64, "int": int}.get(thr_type, float)(thr)
+
+
+def gen_history(rng, wide=False, nd=None, shape=None, min_len=0, p_ts=0.3, big=False, manyrot=0):
+    nd = nd or int(rng.choice([1, 2, 3, 4], p=[0.3, 0.32, 0.3, 0.08]))
     if shape is None:
         hi = 9 if wide else 5
         shape = [int(x) for x in rng.integers(1, hi, size=nd)]
-    style = str(rng.choice(["mixed", "neg", "pos", "ints", "wide", "inf", "mixed", "ints"]))
+        if big:      # more than 10 000 voxels, extents that are neither equal nor round
+            shape = {1: [10007], 2: [101, 103], 3: [23, 21, 22], 4: [11, 10, 9, 11]}[nd]
+    style = str(rng.choice(["mixed", "neg", "pos", "ints", "wide", "inf", "mixed", "ints", "ulp", "ulp", "tiny", "huge", "offset", "zeros"]))
     pool = _value_pool(rng, style)
-    tk = str(rng.choice(["zero", "below", "above", "inside", "member", "member"]))
-    fin = pool[np.isfinite(pool)]
-    thr = {"zero": 0.0, "below": float(fin.min()) - 1.0, "above": float(fin.max()) + 1.0,
-           "inside": float(np.median(fin)) + 1e-3, "member": float(rng.choice(fin))}[tk]
-    thr = float(_f32(thr))
-    nrot = int(rng.integers(1, 5))
+    thr, tk, thr_type = _pick_thr(rng, pool)
+    nrot = manyrot or int(rng.integers(1, 5))
     rots = _rot_pool(rng, nd, nrot)
-    L = int(rng.integers(min_len, 13 if wide else 8))
+    L = manyrot or int(rng.integers(min_len, (5 if big else 13 if wide else 8)))
+    nvox = int(np.prod(shape))
     subs = []
-    for _ in range(L):
+    for j in range(L):
         r = int(rng.integers(nrot))
-        v = rng.choice(pool, size=int(np.prod(shape)))
-        if subs and rng.random() < 0.2:
+        v = rng.choice(pool, size=nvox)
+        if subs and rng.random() < 0.2 and not manyrot:
             v = np.array(subs[int(rng.integers(len(subs)))]["v"], dtype=np.float32)  # exact repeat -> all ties
-        subs.append({"r": r, "v": [float(x) for x in v]})
-    return {"kind": "history", "shape": shape, "thr": thr, "thr_kind": tk, "style": style,
+        if manyrot:
+            # every rotation once, in a random order of identifiers; a rising trend lets late identifiers win
+            r = j
+            v = _f32(rng.integers(-3, 4, size=nvox) + (j if rng.random() < 0.9 else 0))
+        subs.append({"r": r, "v": [float(x) for x in v], "lay": _pick_layout(rng), "rlay": str(rng.choice(_ROT_LAYOUTS))})
+    if style == "ints" or manyrot:
+        sub_dtype = str(rng.choice(_INT_SUB_DTYPES)) if not manyrot else str(rng.choice(["float32", "int32", "float64"]))
+    else:
+        sub_dtype = "float64" if rng.random() < 0.3 else "float32"
+    peeks = sorted(set(int(x) for x in rng.integers(0, L + 1, size=int(rng.integers(1, 3))))) if rng.random() < 0.3 else []
+    return {"kind": "history", "shape": shape, "thr": thr, "thr_kind": tk, "thr_type": thr_type, "style": style,
             "rots": [{"dtype": str(m.dtype), "m": m.tolist()} for m in rots], "subs": subs,
             "thread_safe": bool(rng.random() < p_ts), "unique": bool(rng.random() < 0.5),
-            "sub_dtype": "float64" if rng.random() < 0.15 else "float32"}
+            "sub_dtype": sub_dtype,
+            # how the analyzer is set up: shape as tuple / list / ndarray, or prepared arrays handed in
+            "init": str(rng.choice(["tuple", "tuple", "tuple", "list", "array", "scores", "scores", "scores+rotations"])),
+            "init_lay": _pick_layout(rng, 0.3),
+            "managed": bool(rng.random() < 0.9),          # False: no shared_memory_handler (unmanaged segments)
+            "use_memmap": bool(rng.random() < 0.08),       # tuple(analyzer) hands out read-only memory maps
+            "scan_kwargs": bool(rng.random() < 0.25),      # the other keyword arguments `scan` passes along
+            "peeks": peeks}                                # tuple(analyzer) is also read after that many submissions
+
+
+def gen_synth(rng, n):
+    """a history too long to write down: n submissions of n different rotations to four voxels (built from the seed)"""
+    return {"kind": "history", "shape": [4], "thr": 0.0, "thr_kind": "zero", "thr_type": str(rng.choice(["default", "float", "int"])),
+            "style": "synth", "synth": {"n": int(n), "seed": int(rng.integers(1 << 30))},
+            "thread_safe": False, "unique": bool(rng.random() < 0.5), "sub_dtype": str(rng.choice(["float32", "float64", "int32"])),
+            "init": "tuple", "managed": True, "use_memmap": False, "peeks": [], "rots": [], "subs": []}
+
+
+def _expand(case):
+    """materialise a synthetic history (identifiers beyond the ranges of int8 / int16 / uint16 must survive)"""
+    sy = case.get("synth")
+    if not sy or case.get("subs"):
+        return case
+    n = sy["n"]
+    g = np.random.default_rng(sy["seed"])
+    c = dict(case)
+    # 2x2 matrices, all different
+    c["rots"] = [{"dtype": "float64", "m": [[float(j), 0.0], [0.0, 1.0]]} for j in range(n)]
+    vals = g.integers(1, 1000, size=(n, 4)).astype(np.float32)
+    vals[:, 3] = -1.0                               # voxel 3 never improves
+    winners = [n - 1, int(0.83 * n), int(g.integers(0, min(n, 100)))]
+    for vox, j in enumerate(winners):
+        vals[j, vox] = 5000.0
+    c["subs"] = [{"r": j, "v": [float(x) for x in vals[j]]} for j in range(n)]
+    return c
 
 
 def _rot_arrays(case):
@@ -128,6 +292,13 @@ def _rk(rank, arr):
     for x in np.asarray(arr, dtype=np.float64).ravel().tolist():
         out.append(rank.get(x, "unranked:%r" % x))
     return out
+
+
+def _ids(rt):
+    a = np.asarray(rt)
+    if a.dtype.kind in "iu":
+        return [int(x) for x in a.ravel()]
+    return ["not-an-integer:%r" % (x,) for x in a.ravel().tolist()]
 
 
 def _table_list(tab):
@@ -178,15 +349,73 @@ class _Shm:
             pass
 
 
-def _new_analyzer(shape, thr, thread_safe, smh, offset=None, unique=False):
+def _new_analyzer(shape, thr, thread_safe, smh, offset=None, unique=False, cfg=None):
+    """cfg (optional) carries the ways a caller can spell the same set-up: thr_type, init, init_lay, use_memmap,
+    off_dtype, ts_default (thread_safe left to its default)"""
     from tme.analyzer import MaxScoreOverRotations
+    from tme.backends import backend as be
+    cfg = cfg or {}
     kw = {}
     if unique:
         kw["only_unique_rotations"] = True      # what the scan passes; must not change the table for this backend
     if offset is not None:
-        kw["offset"] = np.asarray(offset, dtype=int)
-    return MaxScoreOverRotations(shape=tuple(shape), score_threshold=thr, thread_safe=thread_safe,
-                                 shared_memory_handler=smh, **kw)
+        kw["offset"] = np.asarray(offset, dtype=cfg.get("off_dtype", "int64"))
+    thr_type = cfg.get("thr_type", "float")
+    if thr_type != "default":
+        kw["score_threshold"] = _thr_value(thr, thr_type)
+    if not (cfg.get("ts_default") and thread_safe):
+        kw["thread_safe"] = thread_safe
+    if cfg.get("use_memmap"):
+        kw["use_memmap"] = True
+    if cfg.get("scan_kwargs"):
+        kw.update(_scan_kwargs(shape))
+    init = cfg.get("init", "tuple")
+    shape = tuple(int(x) for x in shape)
+    if init == "list":
+        kw["shape"] = [np.int64(x) for x in shape]
+    elif init == "array":
+        kw["shape"] = np.asarray(shape, dtype=np.int32)
+    else:
+        kw["shape"] = shape
+    if init in ("scores", "scores+rotations"):
+        kw["scores"] = _layout(np.full(shape, np.float32(thr), dtype=be._float_dtype), cfg.get("init_lay", "C"))
+    if init == "scores+rotations":
+        kw["rotations"] = _layout(np.full(shape, -1, dtype=be._int_dtype), cfg.get("init_lay", "C"))
+    return MaxScoreOverRotations(shared_memory_handler=smh, **kw)
+
+
+def _scan_kwargs(shape):
+    """the keyword arguments `scan` hands to the constructor *and* to `merge` besides the ones that matter here"""
+    nd = len(shape)
+    return {"fourier_shift": np.zeros(nd, dtype=np.int32), "convolution_mode": "same", "targetshape": tuple(shape),
+            "templateshape": (1,) * nd, "convolution_shape": tuple(shape), "fast_shape": tuple(shape), "indices": None}
+
+
+def _segments(an):
+    return [x[0] for x in (an.scores, an.rotations) if isinstance(x, tuple)]
+
+
+def _release(segs):
+    """segments made without a manager are ours to remove"""
+    seen = set()
+    for shm in segs:
+        if shm.name in seen:
+            continue
+        seen.add(shm.name)
+        try:
+            shm.close()
+            shm.unlink()
+        except Exception:
+            pass
+
+
+def _own(res):
+    """tuple(analyzer) / merge result as in-memory arrays; files behind memory maps are registered for removal"""
+    sc, off, rt, tab = res
+    for a in (sc, rt):
+        if isinstance(a, np.memmap) and getattr(a, "filename", None):
+            _merge_impl.tmpfiles.append(str(a.filename))
+    return np.array(sc), np.array(off), np.array(rt), dict(tab)
 
 
 def _post_frame(rng, nd):
@@ -204,7 +433,8 @@ def _post_frame(rng, nd):
         shift = [int(x) for x in rng.integers(-9, 10, size=nd)]
     else:
         shift = None
-    return {"target": n, "template": m, "conv": conv, "fast": fast, "mode": mode, "shift": shift}
+    return {"target": n, "template": m, "conv": conv, "fast": fast, "mode": mode, "shift": shift,
+            "shift_as": str(rng.choice(["tuple", "array"]))}
 
 
 def _frame_crop(post):
@@ -285,19 +515,37 @@ def spec_store(ctx, tag, inp, thr, out_shape, subs_abs, sc, rt, tab, size=None):
 # histories on one analyzer (+ optional post-processing)
 
 def run_history_impl(case, smh):
+    """-> (final tuple(analyzer), [(k, tuple(analyzer) read after k submissions)])"""
     rots = _rot_arrays(case)
-    an = _new_analyzer(case["shape"], case["thr"], case["thread_safe"], smh, unique=case.get("unique", False))
-    dt = np.dtype(case.get("sub_dtype", "float32"))
-    for s in case["subs"]:
-        an(scores=np.array(s["v"], dtype=np.float32).reshape(case["shape"]).astype(dt), rotation_matrix=rots[s["r"]])
-    post = case.get("post")
-    if post:
-        an._postprocess(targetshape=tuple(post["target"]), templateshape=tuple(post["template"]),
-                        convolution_shape=tuple(post["conv"]),
-                        fourier_shift=None if post["shift"] is None else tuple(post["shift"]),
-                        convolution_mode=None if post["mode"] == "none" else post["mode"],
-                        shared_memory_handler=smh, fast_shape=tuple(post["fast"]))
-    return tuple(an)
+    managed = case.get("managed", True)
+    handler = smh if managed else None
+    an = _new_analyzer(case["shape"], case["thr"], case["thread_safe"], handler, unique=case.get("unique", False), cfg=case)
+    segs = [] if managed else _segments(an)
+    try:
+        dt = np.dtype(case.get("sub_dtype", "float32"))
+        peeks, snaps = set(case.get("peeks", [])), []
+        for k, s in enumerate(case["subs"]):
+            if k in peeks:
+                snaps.append((k, _own(tuple(an))))
+            a = _layout(np.array(s["v"], dtype=np.float32).reshape(case["shape"]).astype(dt), s.get("lay", "C"))
+            an(scores=a, rotation_matrix=_layout(rots[s["r"]], s.get("rlay", "C")))
+        post = case.get("post")
+        if post:
+            shift = None if post["shift"] is None else tuple(post["shift"])
+            if shift is not None and post.get("shift_as") == "array":
+                shift = np.asarray(shift)
+            an._postprocess(targetshape=tuple(post["target"]), templateshape=tuple(post["template"]),
+                            convolution_shape=tuple(post["conv"]),
+                            fourier_shift=shift,
+                            convolution_mode=None if post["mode"] == "none" else post["mode"],
+                            shared_memory_handler=handler, fast_shape=tuple(post["fast"]))
+            if not managed:
+                segs += _segments(an)
+        if len(case["subs"]) in peeks:
+            snaps.append((len(case["subs"]), _own(tuple(an))))      # read twice: reading must not change anything
+        return _own(tuple(an)), snaps
+    finally:
+        _release(segs)
 
 
 def _history_req(case, rank):
@@ -319,48 +567,71 @@ def _case_rank(case):
     return _ranker(vals)
 
 
+def _submitted(case, upto=None):
+    """what was submitted, in the frame of the result: [(offset, float32 array, key bytes)]"""
+    rots = _rot_arrays(case)
+    keys = [np.ascontiguousarray(m).tobytes() for m in rots]
+    post = case.get("post") if upto is None else None
+    out = []
+    for s in case["subs"][:upto]:
+        a = np.array(s["v"], dtype=np.float32).reshape(case["shape"])
+        if post:
+            if post["shift"] is not None:
+                a = np.roll(a, shift=tuple(post["shift"]), axis=tuple(range(a.ndim)))
+            st, ex = _frame_crop(post)
+            a = a[tuple(slice(x, x + e) for x, e in zip(st, ex))]
+        out.append(((0,) * a.ndim, a, keys[s["r"]]))
+    return out
+
+
 def check_histories(ctx, cases, smh, do_agree=True):
-    reqs, ranks = [], []
+    reqs, ranks, full = [], [], []
     for c in cases:
-        rk = _case_rank(c)
+        e = _expand(c)
+        full.append(e)
+        rk = _case_rank(e)
         ranks.append(rk)
-        reqs.append(_history_req(c, rk))
-    models = _batch(ctx, reqs) if do_agree else [None] * len(cases)
+        if do_agree and len(e["subs"]) <= 600:
+            reqs.append(_history_req(e, rk))
+    models = iter(_batch(ctx, reqs))
     allgood = True
-    for case, rank, model in zip(cases, ranks, models):
+    for inp, case, rank in zip(cases, full, ranks):
+        agree = do_agree and len(case["subs"]) <= 600       # the model's table is a list: longer histories are judged by the clauses only
+        model = next(models) if agree else None
         tag = "postprocess" if case.get("post") else "aggregate"
         size = len(case["subs"]) * int(np.prod(case["shape"])) + len(case["shape"])
         try:
-            sc, off, rt, tab = run_history_impl(case, smh.handler())
+            (sc, off, rt, tab), snaps = run_history_impl(case, smh.handler())
         except Exception as e:
-            ctx.spec(f"{tag}: submissions are accepted", case, False, traceback.format_exc()[-1500:], key=f"{tag}:raised", size=size)
+            ctx.spec(f"{tag}: submissions are accepted", inp, False, traceback.format_exc()[-1500:], key=f"{tag}:raised", size=size)
             allgood = False
+            _cleanup_tmpfiles()
             continue
-        if do_agree and not case.get("post") and case["subs"] and tuple(sc.shape) == tuple(case["shape"]):
+        _cleanup_tmpfiles()
+        if agree and not case.get("post") and case["subs"] and tuple(sc.shape) == tuple(case["shape"]):
             # the max clause once more, through the Lean *spec* function (`specMax`, what the theorem is stated with)
             stack = np.stack([np.asarray(_rk(rank, _f32(s["v"]))) for s in case["subs"]], axis=1)
             want = ctx.driver.call("c04.specMax", thr=rank[float(np.float32(case["thr"]))], vals=stack.tolist())
-            ctx.spec("aggregate: scores == Lean specMax of the submitted values", case, _rk(rank, sc) == want,
+            ctx.spec("aggregate: scores == Lean specMax of the submitted values", inp, _rk(rank, sc) == want,
                      key="aggregate:max", size=size)
-        if do_agree:
-            impl = {"shape": list(sc.shape), "scores": _rk(rank, sc), "rots": [int(x) for x in rt.ravel()], "table": _table_list(tab)}
-            allgood &= ctx.agree(f"{tag}: tuple(analyzer) == model run", case, impl, model)
+        if agree:
+            impl = {"shape": list(sc.shape), "scores": _rk(rank, sc), "rots": _ids(rt), "table": _table_list(tab)}
+            allgood &= ctx.agree(f"{tag}: tuple(analyzer) == model run", inp, impl, model)
             ok_off = np.array_equal(np.asarray(off), np.zeros(len(case["shape"]), int))
-            allgood &= ctx.agree(f"{tag}: default offset is zero", case, bool(ok_off), True)
-        rots = _rot_arrays(case)
-        keys = [m.tobytes() for m in rots]
+            allgood &= ctx.agree(f"{tag}: default offset is zero", inp, bool(ok_off), True)
+        # the property after every prefix that was observed ("after any sequence ... has been submitted")
+        for k, (psc, poff, prt, ptab) in snaps:
+            if k < len(case["subs"]) or not case.get("post"):
+                pshape, psubs = tuple(case["shape"]), _submitted(case, upto=k)
+            else:                                   # read after post-processing: the result's frame
+                pshape, psubs = tuple(_frame_crop(case["post"])[1]), _submitted(case)
+            allgood &= spec_store(ctx, "aggregate" if k < len(case["subs"]) else tag, {"case": inp, "prefix": k}, case["thr"],
+                                  pshape, psubs, psc, prt, ptab, size=size)
+            ctx.count(f"{tag}:observed-after-a-prefix")
         post = case.get("post")
-        subs_abs = []
-        for s in case["subs"]:
-            a = np.array(s["v"], dtype=np.float32).reshape(case["shape"])
-            if post:
-                if post["shift"] is not None:
-                    a = np.roll(a, shift=tuple(post["shift"]), axis=tuple(range(a.ndim)))
-                st, ex = _frame_crop(post)
-                a = a[tuple(slice(x, x + e) for x, e in zip(st, ex))]
-            subs_abs.append(((0,) * a.ndim, a, keys[s["r"]]))
+        subs_abs = _submitted(case)
         out_shape = tuple(case["shape"]) if not post else tuple(_frame_crop(post)[1])
-        allgood &= spec_store(ctx, tag, case, case["thr"], out_shape, subs_abs, sc, rt, tab, size=size)
+        allgood &= spec_store(ctx, tag, inp, case["thr"], out_shape, subs_abs, sc, rt, tab, size=size)
         # evidence bookkeeping
         L = len(case["subs"])
         nvox = int(np.prod(case["shape"]))
@@ -377,6 +648,17 @@ def check_histories(ctx, cases, smh, do_agree=True):
             mx = stack.max(axis=0)
             ctx.count(f"{tag}:tie-at-max={bool(np.any((stack == mx).sum(axis=0) > 1))}")
         ctx.count(f"{tag}:some-voxel-never-improved={bool(np.any(rt == -1))}")
+        ctx.count(f"{tag}:submitted-dtype={case.get('sub_dtype', 'float32')}")
+        ctx.count(f"{tag}:threshold-given-as={case.get('thr_type', 'float')}")
+        ctx.count(f"{tag}:set-up={case.get('init', 'tuple')}")
+        ctx.count(f"{tag}:shared_memory_handler={'given' if case.get('managed', True) else 'none'}")
+        ctx.count(f"{tag}:use_memmap={case.get('use_memmap', False)}")
+        ctx.count(f"{tag}:rotations={'<=4' if len(case['rots']) <= 4 else '5-127' if len(case['rots']) < 128 else '128-32767' if len(case['rots']) < 32768 else '>=32768'}")
+        ctx.count(f"{tag}:voxels={'<=10000' if nvox <= 10000 else '>10000'}")
+        for lay in sorted(set(s_.get("lay", "C") for s_ in case["subs"])):
+            ctx.count(f"{tag}:score-layout={lay}")
+        for lay in sorted(set(s_.get("rlay", "C") for s_ in case["subs"])):
+            ctx.count(f"{tag}:rotation-matrix-layout={lay}")
         if post:
             ctx.count(f"postprocess:mode={post['mode']}")
             ctx.count(f"postprocess:shift={'none' if post['shift'] is None else 'given'}")
@@ -389,19 +671,22 @@ def check_histories(ctx, cases, smh, do_agree=True):
 # ----------------------------------------------------------------------------------------------
 # tilings and merge
 
-def gen_tiling(rng, wide=False):
-    nd = int(rng.integers(1, 4))
-    G = [int(x) for x in rng.integers(2, 10 if wide else 7, size=nd)]
-    style = str(rng.choice(["mixed", "neg", "ints", "ints", "pos"]))
+_STORE_LAYOUTS = ["C", "C", "C", "F", "readonly", "strided", "axes", "reversed"]
+
+
+def gen_tiling(rng, wide=False, manyrot=False):
+    nd = int(rng.choice([1, 2, 3, 4], p=[0.3, 0.32, 0.3, 0.08]))
+    G = [int(x) for x in rng.integers(2, (5 if nd == 4 else 10 if wide else 7), size=nd)]
+    style = str(rng.choice(["mixed", "neg", "ints", "ints", "pos", "ulp", "offset", "huge", "tiny"]))
     pool = _value_pool(rng, style)
-    tk = str(rng.choice(["zero", "below", "above", "inside", "member"]))
-    fin = pool[np.isfinite(pool)]
-    thr = {"zero": 0.0, "below": float(fin.min()) - 1.0, "above": float(fin.max()) + 1.0,
-           "inside": float(np.median(fin)) + 1e-3, "member": float(rng.choice(fin))}[tk]
-    thr = float(_f32(thr))
+    thr, tk, thr_type = _pick_thr(rng, pool, ["zero", "zero", "below", "above", "inside", "member", "ninf", "pinf"])
     nrot = int(rng.integers(1, 6))
-    rots = _rot_pool(rng, nd, nrot)
     ntiles = int(rng.choice([1, 2, 2, 3, 3, 4, 5]))
+    if manyrot:
+        # tables with more entries than int8 / uint8 hold, partly shared between the tiles, tiny boxes
+        G = [int(x) for x in rng.integers(2, 4, size=nd)]
+        nrot, ntiles = int(rng.integers(270, 330)), int(rng.choice([2, 3]))
+    rots = _rot_pool(rng, nd, nrot)
     layout = str(rng.choice(["random", "random", "same-box", "touching"]))
     tiles = []
     for t in range(ntiles):
@@ -415,28 +700,65 @@ def gen_tiling(rng, wide=False):
                 off = [min(po + ps, g - 1) if ax == 0 else po for ax, (po, ps, g) in enumerate(zip(prev["offset"], prev["shape"], G))]
                 shp = [max(1, min(s, g - o)) for s, g, o in zip(shp, G, off)]
         L = int(rng.integers(0, 6))
-        subs = [{"r": int(rng.integers(nrot)), "v": [float(x) for x in rng.choice(pool, size=int(np.prod(shp)))]} for _ in range(L)]
-        tiles.append({"offset": off, "shape": shp, "subs": subs})
-    return {"kind": "tiling", "thr": thr, "thr_kind": tk, "style": style, "layout": layout,
+        nv = int(np.prod(shp))
+        if manyrot:
+            # consecutive blocks of the pool with a small overlap, in order: whichever store is merged last brings
+            # rotations whose merged identifiers lie beyond 255, and its last (winning) submissions carry them
+            lo, hi_ = (nrot * t) // ntiles, (nrot * (t + 1)) // ntiles
+            order = list(range(max(0, lo - int(rng.integers(0, 25))), hi_))
+            L = len(order)
+            subs = [{"r": int(order[j]), "v": [float(x) for x in _f32(rng.integers(-3, 4, size=nv) + (j if rng.random() < 0.9 else 0))],
+                     "lay": "C", "rlay": "C"} for j in range(L)]
+        else:
+            subs = [{"r": int(rng.integers(nrot)), "v": [float(x) for x in rng.choice(pool, size=nv)],
+                     "lay": _pick_layout(rng, 0.7), "rlay": str(rng.choice(_ROT_LAYOUTS))} for _ in range(L)]
+        tiles.append({"offset": off, "shape": shp, "subs": subs,
+                      "off_dtype": str(rng.choice(["int64", "int64", "int32", "int16"])),     # `scan` hands over int32
+                      "lay": str(rng.choice(_STORE_LAYOUTS)),                                   # layout of the store's arrays at merge
+                      "init": str(rng.choice(["tuple", "tuple", "tuple", "list", "array", "scores", "scores+rotations"])),
+                      "init_lay": _pick_layout(rng, 0.3)})
+    use_memmap = bool(rng.random() < 0.12)
+    return {"kind": "tiling", "thr": thr, "thr_kind": tk, "thr_type": thr_type, "style": style, "layout": layout,
             "rots": [{"dtype": str(m.dtype), "m": m.tolist()} for m in rots], "tiles": tiles,
-            "thread_safe": bool(rng.random() < 0.1), "use_memmap": bool(rng.random() < 0.1),
+            "thread_safe": bool(rng.random() < 0.1), "use_memmap": use_memmap,
+            "an_memmap": bool(use_memmap and rng.random() < 0.6),     # the analyzers hand out memory maps themselves (CLI path)
+            "interleaved": bool(rng.random() < 0.3),                    # all analyzers alive, fed in turns
+            "stores_as": str(rng.choice(["tuple", "list"])),
+            "scan_kwargs": bool(rng.random() < 0.3),                    # merge(...) with everything `scan` passes along
+            "sub_dtype": ("float64" if rng.random() < 0.25 else "float32"),
+            "manyrot": bool(manyrot),
             "perm_seed": int(rng.integers(1 << 30))}
 
 
 def _store_req(st, rank):
     sc, off, rt, tab = st
     return {"shape": list(sc.shape), "offset": [int(x) for x in off], "scores": _rk(rank, sc),
-            "rots": [int(x) for x in rt.ravel()], "table": _table_list(tab)}
+            "rots": _ids(rt), "table": _table_list(tab)}
 
 
 def _copy_store(st):
     return (np.array(st[0]), np.array(st[1]), np.array(st[2]), dict(st[3]))
 
 
-def _merge_impl(stores, thr, use_memmap=False):
+def _merge_kwargs(thr, use_memmap, cfg, nd):
+    cfg = cfg or {}
+    kw = {}
+    if cfg.get("scan_kwargs"):
+        kw.update(_scan_kwargs((2,) * nd))
+        kw.update({"offset": np.zeros(nd, dtype=np.int32), "thread_safe": False, "shared_memory_handler": None,
+                   "only_unique_rotations": True})
+    if cfg.get("thr_type", "float") != "default":
+        kw["score_threshold"] = _thr_value(thr, cfg.get("thr_type", "float"))
+    if use_memmap or not cfg.get("scan_kwargs"):
+        kw["use_memmap"] = use_memmap
+    return kw
+
+
+def _merge_impl(stores, thr, use_memmap=False, cfg=None, lays=None):
     from tme.analyzer import MaxScoreOverRotations
     from tme.matching_utils import array_to_memmap
     stores = [None if s is None else _copy_store(s) for s in stores]
+    nd = next((s[0].ndim for s in stores if s is not None), 1)
     if use_memmap:
         conv = []
         for st in stores:
@@ -449,14 +771,14 @@ def _merge_impl(stores, thr, use_memmap=False):
                          np.memmap(fr, mode="r", dtype=rt.dtype, shape=rt.shape), tab))
             _merge_impl.tmpfiles += [fs, fr]
         stores = conv
-    res = MaxScoreOverRotations.merge(stores, score_threshold=thr, use_memmap=use_memmap)
+    elif lays:
+        stores = [st if st is None else (_layout(st[0], lay), st[1], _layout(st[2], lay), st[3]) for st, lay in zip(stores, lays)]
+    if (cfg or {}).get("stores_as") == "list":
+        stores = [st if st is None else list(st) for st in stores]
+    res = MaxScoreOverRotations.merge(stores, **_merge_kwargs(thr, use_memmap, cfg, nd))
     if res is None:
         return None
-    out = (np.array(res[0]), np.array(res[1]), np.array(res[2]), dict(res[3]))
-    for a in (res[0], res[2]):
-        if isinstance(a, np.memmap) and getattr(a, "filename", None):
-            _merge_impl.tmpfiles.append(str(a.filename))
-    return out
+    return _own(res)
 
 
 _merge_impl.tmpfiles = []
@@ -469,6 +791,10 @@ def _cleanup_tmpfiles():
         except OSError:
             pass
     _merge_impl.tmpfiles = []
+
+
+class _NoResult(Exception):
+    pass
 
 
 def check_tilings(ctx, cases, smh, do_agree=True):
@@ -486,13 +812,30 @@ def check_tilings(ctx, cases, smh, do_agree=True):
         nd = len(case["tiles"][0]["shape"])
         try:
             stores, subs_abs = [], []
+            sdt = np.dtype(case.get("sub_dtype", "float32"))
+            ans, feeds = [], []
+            handler = smh.handler()         # one manager for all analyzers of the case (a recycled manager takes its segments along)
             for t in case["tiles"]:
-                an = _new_analyzer(t["shape"], thr, case["thread_safe"], smh.handler(), offset=t["offset"])
+                cfg = {"thr_type": case.get("thr_type", "float"), "off_dtype": t.get("off_dtype", "int64"), "init": t.get("init", "tuple"),
+                       "init_lay": t.get("init_lay", "C"), "use_memmap": case.get("an_memmap", False), "scan_kwargs": case.get("scan_kwargs", False)}
+                ans.append(_new_analyzer(t["shape"], thr, case["thread_safe"], handler, offset=t["offset"], cfg=cfg))
+                feed = []
                 for s in t["subs"]:
                     a = np.array(s["v"], dtype=np.float32).reshape(t["shape"])
-                    an(scores=a, rotation_matrix=rots[s["r"]])
+                    feed.append((len(ans) - 1, a, s))
                     subs_abs.append((tuple(t["offset"]), a, keys[s["r"]]))
-                stores.append(_copy_store(tuple(an)))
+                feeds.append(feed)
+            if case.get("interleaved"):
+                # all analyzers alive at once, fed in turns (nothing may be shared between objects)
+                flat = [f[j] for j in range(max([len(f) for f in feeds] + [0])) for f in feeds if j < len(f)]
+            else:
+                flat = [x for f in feeds for x in f]
+            for ti, a, s in flat:
+                ans[ti](scores=_layout(a.astype(sdt), s.get("lay", "C")), rotation_matrix=_layout(rots[s["r"]], s.get("rlay", "C")))
+            for an in ans:
+                stores.append(_own(tuple(an)))
+            ans = None
+            lays_of = [t.get("lay", "C") for t in case["tiles"]]
             out_shape = tuple(int(max(t["offset"][ax] + t["shape"][ax] for t in case["tiles"])) for ax in range(nd))
             variants = [("given-order", list(range(len(stores))), None)]
             prng = np.random.default_rng(case["perm_seed"])
@@ -508,8 +851,12 @@ def check_tilings(ctx, cases, smh, do_agree=True):
                 holes.insert(int(prng.integers(0, len(holes) + 1)), -1)
             variants.append(("with-none", holes, None))
             results = {}
-            def merge_agree(name, grp, order, cut, memmap=False):
-                res = _merge_impl(grp, thr, memmap)
+            def merge_agree(name, grp, order, cut, memmap=False, lays=None):
+                res = _merge_impl(grp, thr, memmap, cfg=case, lays=lays)
+                if res is None:
+                    ctx.spec("merge: partial results were given, a result comes back", {"case": case, "order": order, "cut": cut},
+                             not any(g is not None for g in grp), key="merge:no-result", size=size)
+                    raise _NoResult()
                 if do_agree:
                     # the model merges exactly what the implementation was given
                     model = ctx.driver.call("c04.merge", thr=rank[float(np.float32(thr))],
@@ -520,12 +867,14 @@ def check_tilings(ctx, cases, smh, do_agree=True):
             merge_agree.good = True
             for name, order, cut in variants:
                 ordered = [stores[i] if i >= 0 else None for i in order]
+                lays = [lays_of[i] if i >= 0 else "C" for i in order]
+                mm = case["use_memmap"] and len(ordered) > 1
                 if cut is None:
-                    res = merge_agree(name, ordered, order, cut, case["use_memmap"] and len(ordered) > 1)
+                    res = merge_agree(name, ordered, order, cut, mm, lays)
                 else:
-                    left = merge_agree(name + "/left", ordered[:cut], order, cut)
-                    right = merge_agree(name + "/right", ordered[cut:], order, cut)
-                    res = merge_agree(name + "/outer", [left, right], order, cut)
+                    left = merge_agree(name + "/left", ordered[:cut], order, cut, mm and cut > 1, lays[:cut])
+                    right = merge_agree(name + "/right", ordered[cut:], order, cut, mm and len(ordered) - cut > 1, lays[cut:])
+                    res = merge_agree(name + "/outer", [left, right], order, cut, mm)
                 results[name] = res
                 allgood &= merge_agree.good
                 if len(order) == 1:
@@ -540,6 +889,12 @@ def check_tilings(ctx, cases, smh, do_agree=True):
                     ctx.spec("merge: merged result sits at offset zero", case, ok_off, key="merge:offset", size=size)
                     allgood &= spec_store(ctx, "merge", {"case": case, "order": order, "cut": cut}, thr, out_shape, subs_abs, res[0], res[2], res[3], size=size)
                 ctx.count(f"merge:variant={name}")
+            # nothing but jobs without a result: nothing comes back (the model's `mergeOpt` on a list of `none`)
+            if do_agree:
+                for k in (1, 2 + len(stores) % 2):
+                    res0 = _merge_impl([None] * k, thr, False, cfg=case)
+                    allgood &= ctx.agree("merge(only jobs without result) == model merge", {"case": {"kind": "tiling-none", "thr": thr, "k": k}},
+                                         "none" if res0 is None else "store", ctx.driver.call("c04.merge", thr=0, stores=[None] * k))
             # all orders / groupings give the same map
             ref = results["given-order"]
             for name, res in results.items():
@@ -551,7 +906,7 @@ def check_tilings(ctx, cases, smh, do_agree=True):
                 # the rotation *matrices* may differ only at ties; compared through spec_store above
             # one analyzer fed everything at once (partial arrays embedded with the threshold outside their box)
             if len(stores) >= 2:
-                big = _new_analyzer(out_shape, thr, False, smh.handler())
+                big = _new_analyzer(out_shape, thr, False, smh.handler(), cfg={"thr_type": case.get("thr_type", "float")})
                 for (off, a, k), rix in zip(subs_abs, [s["r"] for t in case["tiles"] for s in t["subs"]]):
                     e = np.full(out_shape, np.float32(thr), dtype=np.float32)
                     e[tuple(slice(o, o + s) for o, s in zip(off, a.shape))] = a
@@ -564,8 +919,11 @@ def check_tilings(ctx, cases, smh, do_agree=True):
                 if do_agree:
                     # in the given order the model proves more: identifiers and table coincide too
                     allgood &= ctx.agree("merge(given-order) rotations/table == single analyzer fed the concatenated history", case,
-                                         {"rots": [int(x) for x in ref[2].ravel()] if ref[2].shape == brt.shape else "shape", "table": _table_list(ref[3])},
-                                         {"rots": [int(x) for x in brt.ravel()], "table": _table_list(btab)})
+                                         {"rots": _ids(ref[2]) if ref[2].shape == brt.shape else "shape", "table": _table_list(ref[3])},
+                                         {"rots": _ids(brt), "table": _table_list(btab)})
+        except _NoResult:
+            allgood = False
+            continue
         except Exception:
             ctx.spec("merge: partial results are accepted", case, False, traceback.format_exc()[-1500:], key="merge:raised", size=size)
             allgood = False
@@ -578,6 +936,15 @@ def check_tilings(ctx, cases, smh, do_agree=True):
         ctx.count(f"merge:layout={case['layout']}")
         ctx.count(f"merge:thr={case['thr_kind']}")
         ctx.count(f"merge:use_memmap={case['use_memmap']}")
+        ctx.count(f"merge:analyzers-hand-out-memmaps={case.get('an_memmap', False)}")
+        ctx.count(f"merge:analyzers-fed-in-turns={case.get('interleaved', False)}")
+        ctx.count(f"merge:threshold-given-as={case.get('thr_type', 'float')}")
+        ctx.count(f"merge:scan-keywords={case.get('scan_kwargs', False)}")
+        ctx.count(f"merge:stores-as={case.get('stores_as', 'tuple')}")
+        ctx.count(f"merge:rotations={'<128' if len(case['rots']) < 128 else '>=128'}")
+        for t in case["tiles"]:
+            ctx.count(f"merge:store-layout={t.get('lay', 'C')}")
+            ctx.count(f"merge:offset-dtype={t.get('off_dtype', 'int64')}")
         cover = np.zeros(out_shape, int)
         for t in case["tiles"]:
             cover[tuple(slice(o, o + s) for o, s in zip(t["offset"], t["shape"]))] += 1
@@ -617,10 +984,10 @@ def _worker_main(inq, outq):
         if job is None:
             return
         try:
-            analyzer, shape, subs, rots, delay, t_start = job
+            analyzer, shape, subs, rots, delay, t_start, dt = job
             arrays = []
             for v, r in subs:
-                a = _np.array(v, dtype=_np.float32).reshape(shape)
+                a = _np.array(v, dtype=_np.float32).reshape(shape).astype(dt)
                 if delay > 0:
                     a = a.view(SlowArray)
                 arrays.append((a, rots[r]))
@@ -669,7 +1036,7 @@ class _Pool:
                 p.kill()
 
 
-def gen_concurrent(rng, nproc, slow):
+def gen_concurrent(rng, nproc, slow, split="even"):
     nd = int(rng.integers(1, 4))
     hi = {1: 513, 2: 33, 3: 11}[nd]
     shape = [int(x) for x in (rng.integers(3, 9, size=nd) if slow else rng.integers(max(4, hi // 4), hi, size=nd))]
@@ -677,18 +1044,31 @@ def gen_concurrent(rng, nproc, slow):
     rots = _rot_pool(rng, nd, nrot)
     nvox = int(np.prod(shape))
     rounds = int(rng.integers(3, 7)) if slow else int(rng.integers(20, 50))
-    thr = float(_f32(rng.choice([0.0, -5.0, 2.5])))
-    work = []
-    for p in range(nproc):
-        subs = []
-        for j in range(rounds):
-            # rising trend + noise: most voxels improve on every submission, the per-voxel winner is spread
-            # over processes and rounds, so an overwritten update is not repaired later
-            v = _f32(np.round(rng.normal(size=nvox) * 3 + j * 1.5, 1))
-            subs.append({"r": int(rng.integers(nrot)), "v": [float(x) for x in v]})
-        work.append(subs)
+    thr = float(_f32(rng.choice([0.0, 0.0, -5.0, 2.5])))
+    # how the submissions are spread over the processes: evenly; (k, 1, 0, ..) one long history next to a single
+    # submission and an idle process; (1, 1, .., 1) one submission each
+    if split == "uneven":
+        counts = [rounds * 2] + [1] + [0] * (nproc - 2) if nproc > 2 else [rounds * 2, 1]
+        counts = [counts[i] for i in rng.permutation(nproc)]
+    elif split == "one-each":
+        counts = [1] * nproc
+    else:
+        counts = [rounds] * nproc
+
+    def sub(j):
+        # rising trend + noise: most voxels improve on every submission, the per-voxel winner is spread
+        # over processes and rounds, so an overwritten update is not repaired later
+        v = _f32(np.round(rng.normal(size=nvox) * 3 + j * 1.5, 1))
+        return {"r": int(rng.integers(nrot)), "v": [float(x) for x in v]}
+    work = [[sub(j) for j in range(c)] for c in counts]
+    pre = [sub(0) for _ in range(int(rng.integers(0, 3)))] if rng.random() < 0.5 else []
+    after = [sub(rounds) for _ in range(int(rng.integers(0, 3)))] if rng.random() < 0.5 else []
     return {"kind": "concurrent", "shape": shape, "thr": thr, "nproc": nproc, "delay": 0.004 if slow else 0.0,
-            "rots": [{"dtype": str(m.dtype), "m": m.tolist()} for m in rots], "work": work}
+            "rots": [{"dtype": str(m.dtype), "m": m.tolist()} for m in rots], "work": work, "split": split,
+            "pre": pre, "after": after,                     # submitted by the parent before / after the processes ran
+            "ts_default": bool(rng.random() < 0.5),         # thread_safe left to its default (True)
+            "thr_type": ("default" if thr == 0.0 and rng.random() < 0.5 else "float"),
+            "sub_dtype": ("float64" if rng.random() < 0.3 else "float32")}
 
 
 def check_concurrent(ctx, cases, smh, pool, do_agree=True):
@@ -698,9 +1078,12 @@ def check_concurrent(ctx, cases, smh, pool, do_agree=True):
         keys = [m.tobytes() for m in rots]
         shape, thr = case["shape"], case["thr"]
         size = sum(len(w) for w in case["work"]) * int(np.prod(shape))
-        an = _new_analyzer(shape, thr, True, smh.handler())
+        an = _new_analyzer(shape, thr, True, smh.handler(), cfg={"ts_default": case.get("ts_default", False), "thr_type": case.get("thr_type", "float")})
+        dt = case.get("sub_dtype", "float32")
+        for s in case.get("pre", []):
+            an(scores=np.array(s["v"], dtype=np.float32).reshape(shape).astype(dt), rotation_matrix=rots[s["r"]])
         t_start = time.time() + 0.15
-        jobs = [(an, shape, [(s["v"], s["r"]) for s in w], rots, case["delay"], t_start) for w in case["work"]]
+        jobs = [(an, shape, [(s["v"], s["r"]) for s in w], rots, case["delay"], t_start, dt) for w in case["work"]]
         res = pool.run(jobs)
         if any(r[0] == "timeout" for r in res):
             # infrastructure, not a verdict (same convention as pv.main's alarm handler)
@@ -719,23 +1102,28 @@ def check_concurrent(ctx, cases, smh, pool, do_agree=True):
             ctx.spec("concurrent: submissions are accepted", small, False, errs[0], key="concurrent:raised", size=size)
             allgood = False
             continue
+        for s in case.get("after", []):
+            an(scores=np.array(s["v"], dtype=np.float32).reshape(shape).astype(dt), rotation_matrix=rots[s["r"]])
         sc, off, rt, tab = tuple(an)
-        subs_abs = [((0,) * len(shape), np.array(s["v"], dtype=np.float32).reshape(shape), keys[s["r"]])
-                    for w in case["work"] for s in w]
+        everything = case.get("pre", []) + [s for w in case["work"] for s in w] + case.get("after", [])
+        subs_abs = [((0,) * len(shape), np.array(s["v"], dtype=np.float32).reshape(shape), keys[s["r"]]) for s in everything]
         good = spec_store(ctx, "concurrent", small, thr, tuple(shape), subs_abs, sc, rt, tab, size=size)
         allgood &= good
         if do_agree:
-            vals = [float(np.float32(thr))] + [float(x) for w in case["work"] for s in w for x in _f32(s["v"])]
+            vals = [float(np.float32(thr))] + [float(x) for s in everything for x in _f32(s["v"])]
             rank = _ranker(vals)
             hexes = [_hex(m) for m in rots]
             model = ctx.driver.call("c04.run", shape=shape, thr=rank[float(np.float32(thr))],
-                                    subs=[{"d": _rk(rank, _f32(s["v"])), "k": hexes[s["r"]]} for w in case["work"] for s in w])
+                                    subs=[{"d": _rk(rank, _f32(s["v"])), "k": hexes[s["r"]]} for s in everything])
             # order-free part of the model's prediction: the score map, the set of keys, the identifier range
             impl = {"scores": _rk(rank, sc), "keys": sorted(k.hex() for k in tab), "ids": sorted(int(v) for v in tab.values())}
             mdl = {"scores": model["scores"], "keys": sorted(k for k, _ in model["table"]), "ids": sorted(v for _, v in model["table"])}
             allgood &= ctx.agree("concurrent: shared analyzer == model (any serial order)", small, impl, mdl)
         ctx.count(f"concurrent:nproc={case['nproc']}")
         ctx.count(f"concurrent:widened-window={case['delay'] > 0}")
+        ctx.count(f"concurrent:split={case.get('split', 'even')}")
+        ctx.count(f"concurrent:thread_safe={'default' if case.get('ts_default') else 'given'}")
+        ctx.count(f"concurrent:parent-submits-too={bool(case.get('pre') or case.get('after'))}")
         ns = sum(len(w) for w in case["work"])
         ctx.count("concurrent:submissions=" + ("<=30" if ns <= 30 else "31-100" if ns <= 100 else ">100"))
         ctx.distinct(("concurrent", case["nproc"], shape, case["delay"], hash(json.dumps(case["work"])) & 0xFFFFFFFF))
@@ -835,9 +1223,16 @@ def run(ctx):
             c = gen_history(rng, nd=nd, min_len=2)
             c["subs"] = [c["subs"][0], dict(c["subs"][0])]         # identical arrays, possibly different rotation
             cases.append(c)
+        # more than 10 000 voxels; tables beyond the range of 8-bit identifiers
+        for nd in ctx.budget((1, 2, 3), (1, 2, 3, 4, 1, 2, 3)):
+            cases.append(gen_history(rng, nd=nd, big=True, min_len=1, p_ts=0.0))
+        for n in ctx.budget((140, 300), (130, 200, 260, 300, 520)):
+            cases.append(gen_history(rng, nd=int(rng.integers(1, 4)), shape=[2, 2][:int(rng.integers(1, 3))], manyrot=n, p_ts=0.0))
         for i in range(0, len(cases), 500):
             check_histories(ctx, cases[i:i + 500], smh)
         ctx.sample({k: v for k, v in cases[0].items()})
+        # identifiers beyond the range of 16-bit integers (clauses only: the model's table is a list)
+        check_histories(ctx, [gen_synth(rng, n) for n in ctx.budget((33500,), (33500, 70000))], smh)
 
         # 2. post-processing frames
         n_post = ctx.budget(120, 2500)
@@ -852,7 +1247,7 @@ def run(ctx):
             c = gen_history(prng, nd=nd, shape=post["fast"], min_len=1)
             c["subs"] = c["subs"][:4]
             c["post"] = post
-            c["thread_safe"] = False
+            c["thread_safe"] = bool(prng.random() < 0.05)
             pcs.append(c)
         for i in range(0, len(pcs), 500):
             check_histories(ctx, pcs[i:i + 500], smh)
@@ -861,6 +1256,7 @@ def run(ctx):
         n_til = ctx.budget(150, 3000)
         trng = ctx.rng("tiling")
         tcs = [gen_tiling(trng) for _ in range(n_til)]
+        tcs += [gen_tiling(trng, manyrot=True) for _ in range(ctx.budget(2, 8))]
         check_tilings(ctx, tcs, smh)
         ctx.sample({"kind": "tiling", "tiles": [{"offset": t["offset"], "shape": t["shape"], "n_subs": len(t["subs"])} for t in tcs[0]["tiles"]],
                     "thr": tcs[0]["thr"]})
@@ -873,8 +1269,10 @@ def run(ctx):
         pool = _Pool(4)
         ccs = []
         for i in range(ctx.budget(8, 60)):
-            nproc = 2 if i % 2 == 0 else 4
+            nproc = (2, 4, 3)[i % 3] if i >= 4 else (2 if i % 2 == 0 else 4)
             ccs.append(gen_concurrent(crng, nproc, slow=(i % 4 != 3)))
+        for i in range(ctx.budget(4, 24)):
+            ccs.append(gen_concurrent(crng, (3, 2, 4)[i % 3], slow=True, split=("uneven", "one-each")[i % 2]))
         check_concurrent(ctx, ccs, smh, pool)
         ctx.sample({"kind": "concurrent", "nproc": ccs[0]["nproc"], "shape": ccs[0]["shape"], "rounds": len(ccs[0]["work"][0]),
                     "delay_s": ccs[0]["delay"]})
@@ -884,11 +1282,25 @@ def run(ctx):
         smh.close()
 
 
+def _revive(x):
+    """replay records spell non-finite floats as strings"""
+    if isinstance(x, dict):
+        return {k: _revive(v) for k, v in x.items()}
+    if isinstance(x, list):
+        return [_revive(v) for v in x]
+    if isinstance(x, str) and x in ("inf", "-inf"):
+        return float(x)
+    return x
+
+
 def _dispatch(ctx, case, smh, pool, do_agree=True):
+    case = _revive(case)
     kind = case.get("kind")
-    if kind is None and "case" in case:
+    while kind is None and isinstance(case.get("case"), dict):
         case = case["case"]
         kind = case.get("kind")
+    if kind == "tiling-none":
+        return True
     if kind == "history":
         return check_histories(ctx, [case], smh, do_agree)
     if kind == "tiling":
@@ -926,10 +1338,12 @@ def search(ctx):
             c["thread_safe"] = False
             pcs.append(c)
         check_histories(ctx, pcs, smh, do_agree=False)
-        check_tilings(ctx, [gen_tiling(rng, wide=True) for _ in range(n // 2)], smh, do_agree=False)
+        check_tilings(ctx, [gen_tiling(rng, wide=True) for _ in range(n // 2)] + [gen_tiling(rng, manyrot=True) for _ in range(3)], smh, do_agree=False)
+        check_histories(ctx, [gen_history(rng, nd=1, shape=[3], manyrot=300, p_ts=0.0), gen_synth(rng, 33500), gen_synth(rng, 70000)]
+                        + [gen_history(rng, nd=nd, big=True, min_len=1, p_ts=0.0) for nd in (1, 2, 3)], smh, do_agree=False)
         if not ctx.spec_failures:
             pool = _Pool(4)
-            ccs = [gen_concurrent(rng, 2 + 2 * (i % 2), slow=True) for i in range(ctx.budget(12, 40))]
+            ccs = [gen_concurrent(rng, 2 + (i % 3), slow=True, split=("even", "even", "uneven", "one-each")[i % 4]) for i in range(ctx.budget(12, 40))]
             check_concurrent(ctx, ccs, smh, pool, do_agree=False)
         ctx.note("search: widened generators evaluated on the implementation (spec only)")
     finally:
